@@ -74,6 +74,7 @@ Definition main_code (f : file) (text : list int) : N :=
          | Some pf =>
            if negb (pfile_valid pf) then 5
            else if negb (forallb (fun m => tags_hyp (msg_members m)) (file_msgs f)) then 6
+           else if negb (forallb (fun m => goa_accepts TopPlain (msg_members m)) (file_msgs f)) then 7
            else 0
          end
   end.
@@ -159,3 +160,8 @@ Definition order_mismatches (cs : list (int * list decl * skind)) : list N :=
      if skind_eqb (kind_of_decls ds) observed
         && skind_eqb observed (designed_kind (has_decl DStreamingPayload ds) (has_decl DStreamingResult ds))
      then [] else [n_of i] end) cs.
+
+(* must-reject stream: the members of the defective message of a design goa refused; the
+   model of goa's validation must refuse them too *)
+Definition reject_mismatches (cs : list (int * list member)) : list N :=
+  flat_map (fun c => match c with (i, ms) => if goa_accepts TopPlain ms then [n_of i] else [] end) cs.
